@@ -94,11 +94,11 @@ def monitorLine (l : Line) : Option String :=
   | _ => some "bad-kind"
 
 def lineClass (l : Line) : String :=
-  if str l "kind" == "endpoint" then s!"endpoint:{str l "router"}:{str l "ep"}:{str l "mint"}:aud-{str l "aud"}:{str l "order"}:{str l "vlife"}:{str l "wire"}:{if has l "v.subjcheck" then "subj-" ++ str l "v.subjcheck" ++ "-" ++ str l "subrel" ++ ":" else ""}{str l "obs"}"
+  if str l "kind" == "endpoint" then s!"endpoint:{str l "router"}:{str l "ep"}:{str l "mint"}:aud-{str l "aud"}:{str l "order"}:{str l "vlife"}:{str l "wire"}:{if has l "v.subjcheck" then "subj-" ++ str l "v.subjcheck" ++ "-" ++ str l "subrel" ++ ":" else ""}{if has l "far" then "far-" ++ str l "far" ++ ":" else ""}{str l "obs"}"
   else if str l "kind" == "roendpoint" then s!"roendpoint:{str l "router"}:{str l "issmode"}:ro-{str l "ro.supported"}:aud-{str l "aud"}:{str l "signer"}:{str l "obs"}"
   else if str l "kind" == "mint" then s!"mint:{str l "family"}:{str l "h.form"}:{str l "h.obs"}:{obsString l}"
   else if str l "kind" == "seq" then s!"seq:{str l "via"}:{str l "vlife"}:{str l "rel"}:{str l "variant"}:signer-{str l "signer"}:{obsString l}"
-  else s!"{str l "kind"}:{obsString l}"
+  else s!"{str l "kind"}:{if has l "far" then "far-" ++ str l "far" ++ ":" else ""}{obsString l}"
 
 def stepMon (l : Line) : String :=
   s!"case={str l "case"} class={lineClass l} model=- observed={obsString l} monitor={showMon (monitorLine l)} agree=1"
